@@ -20,7 +20,7 @@ shim_fd_t shim_fd[SHIM_MAXFD];
 int shim_bad_close; const char *shim_bad_close_why = "";
 long shim_lib_opens, shim_lib_closes;
 uint64_t shim_now_ns = 1000ull * 1000000000ull;
-int shim_inject_write_eagain, shim_inject_epoll_errno, shim_epoll_calls, shim_epoll_blocking_calls, shim_inject_ctl_del;
+int shim_inject_write_eagain, shim_inject_epoll_errno, shim_epoll_calls, shim_epoll_blocking_calls, shim_inject_ctl_del, shim_inject_timerfd_fail;
 int (*shim_env_turn)(void);
 void (*shim_blocked)(void);
 
@@ -52,7 +52,7 @@ void shim_reset(void) {
     shim_regex_live = 0;
     memset(shim_fd, 0, sizeof shim_fd); memset(VT, 0, sizeof VT);
     shim_bad_close = 0; shim_lib_opens = shim_lib_closes = 0; shim_now_ns = 1000ull * 1000000000ull;
-    shim_inject_write_eagain = shim_inject_epoll_errno = shim_inject_ctl_del = 0; shim_epoll_calls = shim_epoll_blocking_calls = 0;
+    shim_inject_write_eagain = shim_inject_epoll_errno = shim_inject_ctl_del = shim_inject_timerfd_fail = 0; shim_epoll_calls = shim_epoll_blocking_calls = 0;
 }
 
 /* ---- time ---- */
@@ -61,6 +61,7 @@ int __wrap_clock_gettime(clockid_t clk, struct timespec *ts) {
 }
 int __wrap_timerfd_create(int clockid, int flags) {
     (void)clockid; (void)flags;
+    if (shim_inject_timerfd_fail) { shim_inject_timerfd_fail = 0; errno = EMFILE; return -1; }      /* deviation: the process is out of descriptors */
     int fd = __real_eventfd(0, EFD_NONBLOCK | EFD_CLOEXEC);
     if (fd < 0) return fd;
     lib_open(fd, FK_TIMER);
